@@ -2629,6 +2629,7 @@ static size_t ZSTD_copyCCtx_internal(ZSTD_CCtx* dstCCtx,
     }
     dstCCtx->dictID = srcCCtx->dictID;
     dstCCtx->dictContentSize = srcCCtx->dictContentSize;
+    dstCCtx->streamStage = zcss_init;   /* a copy is a buffer-less session : a streaming frame open in dstCCtx is abandoned, its buffers are gone */
 
     /* copy block state */
     ZSTD_memcpy(dstCCtx->blockState.prevCBlock, srcCCtx->blockState.prevCBlock, sizeof(*srcCCtx->blockState.prevCBlock));
